@@ -83,7 +83,12 @@ func (x *Explorer) fresh() *inst {
 		}
 		x.keysFor = x.C
 	}
-	n := x.W.NewNode(x.C.OwnKey, 50)
+	var n *Node
+	if x.C.PrivateDB {
+		n = x.W.NewNodePrivateDB(x.C.OwnKey, 50)
+	} else {
+		n = x.W.NewNode(x.C.OwnKey, 50)
+	}
 	in := &inst{n: n, m: NewModel(x.C), store: map[string][]byte{}, LastBroadcast: map[string]time.Time{}}
 	in.key = in.m.Key() + "#" + ImplKey(n, in.store, x.WithTimes)
 	return in
@@ -112,6 +117,8 @@ func (x *Explorer) step(in *inst, e Event, hist []Event, check bool) {
 	switch {
 	case e.Kind == "budget":
 		in.n.P.VerifSetRetryCount(hex.EncodeToString(x.C.Msgs[e.M].OwnDigest()), uint(e.DtSec))
+	case e.Kind == "dbclose":
+		in.n.CloseDB()
 	case e.Kind == "tick" && e.FullQ:
 		out = in.n.StepFullQueue(input)
 	default:
@@ -338,7 +345,7 @@ func (x *Explorer) oracleC02(in *inst, e Event, input interface{}, exp Expect, o
 				x.viol("C02", "C02 published VAA carries a signature of a guardian whose observation was never delivered", "", hist)
 			}
 		}
-		if sv, ok := post[d.StoreKey()]; !ok || !bytes.Equal(sv, out.VAAs[0]) {
+		if sv, ok := post[d.StoreKey()]; (!ok || !bytes.Equal(sv, out.VAAs[0])) && !in.m.DBClosed {
 			x.viol("C02", "C02 published VAA was broadcast but not stored", "", hist)
 		}
 	}
